@@ -1,7 +1,7 @@
 (* C09  Expression types follow the language's conversion rules.
    Statements only; every proof is `exact <lemma>`. *)
 From CV Require Import Base.Bytes Lit.Platform Lit.Gen_Platforms TypeConv.Gen_TypeRank TypeConv.Defs TypeConv.Spec
-  TypeConv.Proofs TypeConv.Explain TypeConv.Refuted.
+  TypeConv.Proofs TypeConv.LitProofs TypeConv.Explain TypeConv.Refuted.
 Local Open Scope N_scope.
 
 (* on every assignment of widths with 1 < char < short < int < long < long long (strictly), for all
@@ -55,21 +55,15 @@ Theorem C09_conditional_mixed_sign_refuted : forall w cpp, strict w ->
 Proof. exact conditional_mixed_sign_refuted. Qed.
 Print Assumptions C09_conditional_mixed_sign_refuted.
 
-(* refuted: octal literals are typed like decimal ones (MathLib::isDec accepts them) *)
-Theorem C09_literal_type_octal_refuted :
-  exists p v, In p Gen_platforms /\
-    literal_ctype (widths_of p) false false 0 v = Some CUInt /\
-    ctype_of (literal_type p true false 0 v) = Some CLong.
-Proof. exact literal_type_octal_refuted. Qed.
-Print Assumptions C09_literal_type_octal_refuted.
-
-(* refuted: a hex/octal/binary literal in [2^N, 2^(N+1)) is typed unsigned int (`value >> 2` in the code) *)
-Theorem C09_literal_type_nondecimal_refuted :
-  exists p v, In p Gen_platforms /\
-    literal_ctype (widths_of p) false false 0 v = Some CLong /\
-    ctype_of (literal_type p false false 0 v) = Some CUInt.
-Proof. exact literal_type_nondecimal_refuted. Qed.
-Print Assumptions C09_literal_type_nondecimal_refuted.
+(* integer literals (holds since /repo 75f7975; before, refuted by `0x100000000` and `020000000000`
+   on unix64): for every platform record with int <= long <= long long, every value and suffix, when
+   ISO C 6.4.4.1 gives the literal a type, setValueTypeInTokenList gives that type *)
+Theorem C09_literal_type_spec p dec usfx lcount v t :
+  1 <= int_bit p -> int_bit p <= long_bit p -> long_bit p <= longlong_bit p ->
+  literal_ctype (widths_of p) dec usfx lcount v = Some t ->
+  ctype_of (literal_type p dec usfx lcount v) = Some t.
+Proof. exact (literal_type_spec p dec usfx lcount v t). Qed.
+Print Assumptions C09_literal_type_spec.
 
 (* on the shipped platforms every disagreement with ISO C (any operator class, operand pair, C or C++)
    has one of five causes: a conditional whose operands are two types of one rank, equal width of a lower-ranked unsigned and a higher-ranked signed type,
@@ -87,5 +81,7 @@ Print Assumptions C09_explain_0_agrees.
 (* non-vacuity: strict widths exist (LP64), and a platform of the table has them *)
 Example C09_ex_strict : strict (mkW 8 16 32 64 128 true).
 Proof. unfold strict; cbn; lia. Qed.
+Example C09_ex_literal : literal_ctype (widths_of plat_unix64) false false 0 4294967296 = Some CLong.
+Proof. vm_compute. reflexivity. Qed.
 Example C09_ex_uint_long_lp64 : c_result false (widths_of plat_unix64) CArith CUInt CLong = CLong.
 Proof. vm_compute. reflexivity. Qed.
